@@ -1,6 +1,6 @@
 (* C02 - A step moves one piece one square and captures exactly unsupported trap pieces. *)
 From Coq Require Import NArith List Bool.
-From Arimaa Require Import Types U64 Board Engine Cells Rules Monitors StepLemmas Refine Invariant TurnLemmas.
+From Arimaa Require Import Types U64 Board Engine Cells Rules Monitors StepLemmas GenLemmas Refine Invariant TurnLemmas Material.
 Open Scope N_scope.
 
 (* bit level = square level, for any well-formed board: the piece on src goes to the empty target t,
@@ -25,3 +25,10 @@ Theorem C02_pass_keeps_board : forall s pp, ph s = PlayPhase pp -> move_no s + 1
   board (take_action s Pass) = board s.
 Proof. intros s pp H1 H2. exact (proj1 (proj2 (proj2 (pass_turn s pp H1 H2)))). Qed.
 Print Assumptions C02_pass_keeps_board.
+
+(* material never increases: per owner and kind the number of pieces after an offered step is at most the number before
+   (no piece changes type or colour, none appears); npk counts the squares holding (owner, kind) *)
+Theorem C02_material : forall s pp i d o k, PlayInv s pp -> In (Move i d) (valid_actions_no_rep s) ->
+  (npk (cell (board (take_action s (Move i d)))) o k <= npk (cell (board s)) o k)%nat.
+Proof. exact step_material. Qed.
+Print Assumptions C02_material.
